@@ -1,0 +1,10 @@
+//go:build verif
+
+package httppeeridauth
+
+import "github.com/libp2p/go-libp2p/p2p/http/auth/internal/handshake"
+
+// VerifHandshakeServer re-exports the server side of the handshake state machine for the
+// verification harness: its Reset() re-use contract is not reachable through ServeHTTP,
+// which builds a fresh value per request.
+type VerifHandshakeServer = handshake.PeerIDAuthHandshakeServer
